@@ -34,17 +34,18 @@ func init() {
 					add(3, t, 4, 4, 4)
 					add(3, t, 4, 0, 4)
 				} else {
+					// ordered pairs: the insertion order matters for fields that share an address
 					for _, c0 := range regClasses {
 						for _, c1 := range regClasses {
-							if c1 < c0 {
-								continue
+							if (c0 == 3 && c1 == 3) && t != 4 {
+								continue // two symbolic-length strings: once (slowest job)
 							}
 							add(2, t, c0, c1)
 						}
 					}
 					add(2, t, 0, 4)
 					// three fields: size classes
-					for _, cs := range [][]int{{0, 0, 0}, {0, 1, 2}, {2, 2, 2}, {0, 4, 1}} {
+					for _, cs := range [][]int{{0, 0, 0}, {0, 0, 1}, {0, 0, 2}, {0, 1, 1}, {0, 1, 2}, {0, 2, 2}, {1, 1, 1}, {1, 1, 2}, {1, 2, 2}, {2, 2, 2}, {2, 0, 0}, {2, 1, 0}, {1, 0, 0}, {2, 0, 1}, {0, 4, 1}} {
 						add(3, t, cs...)
 					}
 					if tier == "thorough" {
@@ -60,7 +61,7 @@ func init() {
 			return js
 		},
 		Bounds: map[string]string{
-			"quick":    "lists of 0..3 fields; per field: server in {A,B} (case-split), unit id, address (all 65536), byte order, string length, bit number symbolic; field classes case-split over {Uint16, Int8, Uint32, Float64, String, Bit(any bit 0..255), Coil, invalid type}; split targets FC1-TCP, FC2-RTU, FC3-TCP, FC4-RTU; map iteration order: all permutations up to 3 groups",
+			"quick":    "lists of 0..3 fields (all ordered pairs of classes; triples over the size classes 1/2/4 registers in sorted and in widest-first order); per field: server in {A,B} (case-split), unit id, address (all 65536), byte order, string length, bit number symbolic; field classes case-split over {Uint16, Int8, Uint32, Float64, String, Bit(any bit 0..255), Coil, invalid type}; split targets FC1-TCP, FC2-RTU, FC3-TCP, FC4-RTU; map iteration order: all permutations up to 3 groups",
 			"thorough": "all 8 split targets; additionally selected lists of 4 fields",
 		},
 		Outside:   []string{"more than 3 (thorough: 4) fields", "more than 2 distinct server strings", "field types not in the class list are represented by a type of the same register size"},
